@@ -257,7 +257,7 @@ theorem keptM_guids_nodup (src : Source) (kinds : List Kind) (ids : List Nat) :
     of a collection are listed by start, pairwise disjoint and non-empty, as its constructor establishes). -/
 theorem queryByIntervalGuids_meets (src : Source) (wf : SrcWF src) (gw : GcWF src) (kinds : List Kind)
     (ids : List Nat) (hids : ids.Nodup) (hvar : ∀ c ∈ src.children, c.kind = .var → VarOK c) (bs be : Int)
-    (hb : selfBounds src = some (bs, be)) (hW : WholeBoundsOK src) :
+    (hb : selfBounds src = some (bs, be)) :
     okQueryByIntervalGuids src kinds ids (toAns (queryByIntervalGuids src kinds ids)) = true := by
   have hndI : ((iterChildren src).map Child.guid).Nodup :=
     (((iterChildren_perm src).map Child.guid).nodup_iff).mpr wf.guids
@@ -345,10 +345,6 @@ theorem queryByIntervalGuids_meets (src : Source) (wf : SrcWF src) (gw : GcWF sr
       refine ⟨reducedM ids c a b, ?_, key c a b ho⟩
       exact (mem_keptM src wf gw kinds ids (reducedM ids c a b)).mpr ⟨c, a, b, ho, rfl⟩
   · exact hS
-  · refine idDomain_children src wf hW bs be hb _ (fun y hy => ?_)
-    obtain ⟨c, a, b, ho, rfl⟩ := (mem_keptS src gw kinds ids hids y).mp hy
-    have h2 := (hown c a b ho).2
-    exact ⟨c, ho.1, by simp only [reducedS]; omega, by simp only [reducedS]; omega⟩
 
 /-! ### `child.query_by_guids` observed directly -/
 
